@@ -28,8 +28,13 @@ def run_seq(seq, seed=0):
         it = iter(seq)
         lost = []
 
+        after = []          # requests sent after stop()
+
         async def send():
             t = ms(loop.time())
+            if after:
+                after.append(t)
+                return True, None
             try:
                 o = next(it)
             except StopIteration:
@@ -76,12 +81,17 @@ def run_seq(seq, seed=0):
             if seq2 is not None:
                 hb2.start()
                 await asyncio.sleep(0)
+            if len(seq) % 3 == 0:       # every third sequence: the heartbeat is started twice in a row (a reconnect right after the connect)
+                hb.start()
             hb.start()
             await asyncio.sleep(HEARTBEAT_RATE * (len(seq) + 2) + 100)
             alive = hb._task is not None and not hb._task.done()
             trace.append({"ev": "end", "alive": 1 if alive else 0, "lost": len(lost)})
             hb.stop()
             hb2.stop()
+            after.append(-1)            # from now on a request is one too many
+            await asyncio.sleep(HEARTBEAT_RATE * 3 + 50)
+            trace.append({"ev": "afterstop", "n": len(after) - 1})
 
         hb2 = ConnectionHeartbeat("u", send2, onfail2)
 
